@@ -13,12 +13,23 @@ import z3
 from .core import SV, NUM, cur, valid, const_fold
 
 
+def _D():
+    from .dual import D
+    return D
+
+
+def _parts(a):
+    """z3 terms making up a coefficient: one for an SV, value + tangents for a dual number."""
+    return [a.e] if isinstance(a, SV) else [a.v.e] + [t.e for t in a.t]
+
+
 class Ser:
     N = 3
     __slots__ = ("c",)
 
     def __init__(self, c):
-        c = [x if isinstance(x, SV) else SV(x) for x in c]
+        # coefficients are SV, or dual numbers over SV (derivatives of a series map with respect to its inputs, order by order)
+        c = [x if isinstance(x, (SV, _D())) else SV(x) for x in c]
         self.c = (c + [SV(0)] * (Ser.N + 1))[: Ser.N + 1]
 
     @staticmethod
@@ -27,7 +38,7 @@ class Ser:
 
     @staticmethod
     def _ok(o):
-        return isinstance(o, (Ser, SV)) or isinstance(o, NUM)
+        return isinstance(o, (Ser, SV, _D())) or isinstance(o, NUM)
 
     def __add__(s, o):
         if not Ser._ok(o):
@@ -156,6 +167,21 @@ class Ser:
         """(index, coefficient) of the first coefficient that is not z3-valid zero, or None."""
         ctx = cur()
         for i, a in enumerate(s.c):
+            if not isinstance(a, SV):
+                # dual coefficient: zero iff the value and every tangent are
+                zero = True
+                for e in _parts(a):
+                    e = const_fold(e)
+                    if z3.is_rational_value(e):
+                        if e.numerator_as_long() != 0:
+                            zero = False
+                            break
+                    elif not valid(e == 0, ctx.assumptions(), 4000):
+                        zero = False
+                        break
+                if zero:
+                    continue
+                return i, a
             e = const_fold(a.e)
             if z3.is_rational_value(e):
                 if e.numerator_as_long() == 0:
@@ -222,7 +248,7 @@ class Ser:
         return "<series>"
 
     def __repr__(s):
-        return "Ser(" + ", ".join(str(z3.simplify(a.e))[:60] for a in s.c) + ")"
+        return "Ser(" + ", ".join(str(z3.simplify(_parts(a)[0]))[:60] for a in s.c) + ")"
 
     def __copy__(s):
         return s
@@ -238,8 +264,7 @@ numbers.Number.register(Ser)
 
 
 def _is_zero(a):
-    e = a.e
-    return z3.is_rational_value(e) and e.numerator_as_long() == 0
+    return all(z3.is_rational_value(e) and e.numerator_as_long() == 0 for e in _parts(a))
 
 
 def germ_norm(vct):
